@@ -197,7 +197,7 @@ def budget_of(mod, tier):
     return b
 
 
-def run_check(name, tier, seed, jobs=None, max_replays=12, limit=None):
+def run_check(name, tier, seed, jobs=None, max_replays=12, limit=None, triage=False):
     mod = load_check(name)
     prop = mod.PROP
     t0 = time.time()
@@ -277,6 +277,16 @@ def run_check(name, tier, seed, jobs=None, max_replays=12, limit=None):
         key = canon(v['sig'])
         seen_sig.setdefault(key, []).append((it, v))
     written = 0
+    if triage:
+        for key, lst in sorted(seen_sig.items(), key=lambda kv: -len(kv[1])):
+            it, v = lst[0]
+            print('TRIAGE %d x %s\n    %s' % (len(lst), key, canon(v['detail'])[:1500]))
+        for fid, (e, n, it, v) in sorted(listed.items()):
+            print('TRIAGE-KNOWN %s x %d' % (fid, n))
+        print('TRIAGE skips', skips, 'harness_errors', len(harness_errors))
+        for it, err in harness_errors[:3]:
+            print('HARNESS-ERROR item=%s\n%s' % (canon(it)[:600], err))
+        return 0
     for key, lst in seen_sig.items():
         if written >= max_replays:
             break
